@@ -19,7 +19,7 @@ EXPLANATION = (
     "usec*b/a for /float); (5) _divide_and_round is statement-for-statement the round-half-even reference of "
     "the running interpreter's Lib/_pydatetime.py (plus the int() coercion); (6) every self.__class__(...) "
     "call in an inherited operator binds against the constructor of each subclass that inherits it; "
-    "Interval's operators delegate to as_duration(). NOT decided: float rounding of total_seconds()-based "
+    "Interval's operators delegate to as_duration(). NOT decided (before INTERVAL.exact was added): float rounding of total_seconds()-based "
     "__add__/__sub__."
     " As built: ARITH.tabulated runs every operator (+, reflected +, -, unary -, * and reflected *, //, /, %, divmod) with the checker's interpreter on Duration instance stubs and native timedeltas of both signs (sub-second parts, day boundaries, half-even ties, a length beyond 2**53 us) and compares length and result type with the same operation on the standard library's timedelta; where it succeeds, clauses (1) result type, (3) and (4) are established by it and the shape rules only decide for code outside the interpreter."
 )
@@ -447,9 +447,42 @@ def _ctor_lsp(ctx) -> None:
         other = core.params(fn)[0]
         ok = len(r) == 1 and nun(r[0].value) == f"self.as_duration().{op}({other})"
         ctx.ob("INTERVAL.delegate", f"Interval.{op}", ok, f"returns {[nun(x.value) for x in r]}; must delegate to as_duration()", im.loc(fn))
-    r = core.returns(im.func("Interval.as_duration"))
-    ctx.ob("INTERVAL.delegate", "Interval.as_duration", len(r) == 1 and nun(r[0].value) == "Duration(seconds=self.total_seconds())",
-           f"{[nun(x.value) for x in r]}", im.rel)
+    ctx.step(_as_duration_tabulate, ctx)
+
+
+def _as_duration_tabulate(ctx) -> None:
+    """INTERVAL.exact: Interval.as_duration (what every operator and == of an Interval goes through) run by the checker's interpreter on
+    interval stubs carrying a native length - short, negative, sub-second, and beyond 2**53 microseconds (spans of centuries, where a float
+    of seconds no longer holds the microseconds): the Duration it builds must have exactly that length and no years / months."""
+    import datetime as _dt
+    from ..rules import durstub, minieval
+    dm, im = pmod("duration"), pmod("interval")
+    fn = im.func("Interval.as_duration")
+    bad, n = [], 0
+    try:
+        w = durstub.World(dm)
+        ifuncs = {st.name: st for st in im.top() if isinstance(st, ast.FunctionDef)}
+        glob = {**ifuncs, "$globals": {**minieval.module_consts(im), "Duration": w.duration_cls, "timedelta": w.timedelta}}
+        for st in im.tree.body:        # helpers imported from pendulum.duration run in that module's globals
+            if isinstance(st, ast.ImportFrom) and st.module == "pendulum.duration":
+                for a_ in st.names:
+                    if a_.name in w.glob and isinstance(w.glob[a_.name], ast.FunctionDef):
+                        glob[a_.asname or a_.name] = (w.glob[a_.name], w.glob)
+        for us in (0, 1, -1, 90 * 10**6 + 5, -(86400 * 10**6 * 3 + 7), 2**53 + 1, 47349753255999998, -47349753255999998, 315537897599999999, 86400 * 10**6 * 365 * 300 + 999999):
+            td = _dt.timedelta(microseconds=us)
+            iv = w.instance(td)
+            vars(iv)["_methods"] = {**vars(iv)["_methods"], **im.methods("Interval")}
+            n += 1
+            got = minieval.call(fn, [iv], {}, glob)
+            if not isinstance(got, durstub.Rebuilt):
+                raise core.Unsupported("as_duration() does not end in Duration(...)")
+            y, mo, rest = durstub.rebuilt_value(got)
+            if (y, mo) != (0, 0) or rest != us:
+                bad.append(f"an interval of {us} us: as_duration() builds {rest} us" + (f", years={y} months={mo}" if (y, mo) != (0, 0) else ""))
+    except durstub.ERRORS + (minieval.Raised, ValueError, OverflowError) as e:
+        ctx.unverified("INTERVAL.exact", "Interval.as_duration", f"outside the checker's interpreter: {type(e).__name__}: {e}", im.loc(fn))
+        return
+    ctx.ob("INTERVAL.exact", "Interval.as_duration", not bad, f"{n} lengths: " + (f"wrong: {bad[:3]}" if bad else "the Duration has exactly the interval's length"), im.loc(fn))
 
 
 def run(ctx) -> None:
